@@ -502,6 +502,19 @@ def rules(rep, m):
             r4.fail()
         else:
             r4.ok()
+    # ... and that withdrawal is complete: the unwinding routine cancels every pending event addressed to the victim on
+    # every path - also a plain resume that has no awaitable tag (shared with R-C09-3 / R-C05-4)
+    from . import c09 as _c09
+    okf_, txt_ = _c09.final_cancel_ok(m)
+    r4.instance("the unwinding routine ends with a wildcard cancel of the process's events on every path: %s %s" % (okf_, txt_))
+    if not okf_:
+        rep.finding(r4, "cmi_process_cancel_awaiteds", "victim:withdrawal-incomplete", "the routine that withdraws a preemption "
+                    "victim's pending wake-ups does not cancel every event addressed to it on every path (%s): a wake-up "
+                    "without an awaitable tag - a resume scheduled for this instant - still runs first, and the victim goes on "
+                    "with success while it holds nothing" % txt_, where=m.rel(m.need("cmi_process_cancel_awaiteds").where))
+        r4.fail()
+    else:
+        r4.ok()
     # keyed by priority at creation and on priority change
     ur = pf["update_record"]
     ucx = FuncCtx(m, ur)
